@@ -108,6 +108,15 @@ type named struct {
 	cmp      bool   // comparable
 	hasUnion bool   // value contains a union somewhere (cannot cross packages for wrappers)
 	intEnum  bool
+	// weight estimates how many scalar values one generated random value of
+	// the type holds (slices 5x, maps 45x, unions evaluate every member): the
+	// random-data profile keeps values small enough to be built in milliseconds
+	weight int
+	// embedRelated: the struct embeds another struct or is embedded; such
+	// structs stay out of unions (an embedded member's methods are promoted,
+	// which silently makes the embedding struct a member as well)
+	embedRelated bool
+	unionMember  bool
 }
 
 type pkg struct {
@@ -135,6 +144,7 @@ type gen struct {
 	counter    int
 	sawUnion   bool
 	wideBasics bool
+	w          int // weight of the type expression typeExprB returned last
 }
 
 var randBasics = []string{"bool", "int", "int32", "int64", "uint8", "int8", "int16", "uint16", "float64", "string"}
@@ -224,8 +234,21 @@ func (g *gen) canImport(from, to *pkg) bool {
 
 // typeExpr returns a Go type expression for a field or element.
 // ctx: 0 field, 1 element of slice/array/map value, 2 map key
+// budget bounds the weight (see named.weight) of the expression returned.
+func (g *gen) budget() int {
+	if g.prof.RandSafe {
+		return 4000
+	}
+	return 1 << 30
+}
+
 func (g *gen) typeExpr(f *file, depth int, key bool) (expr string) {
+	return g.typeExprB(f, depth, key, g.budget())
+}
+
+func (g *gen) typeExprB(f *file, depth int, key bool, budget int) (expr string) {
 	r := g.r
+	g.w = 1
 	if key {
 		cands := g.visible(f, func(t *named) bool { return t.jsonKey })
 		if len(cands) > 0 && r.Chance(1, 2) {
@@ -240,6 +263,9 @@ func (g *gen) typeExpr(f *file, depth int, key bool) (expr string) {
 			return g.basic()
 		case w < 11:
 			cands := g.visible(f, func(t *named) bool {
+				if t.weight > budget {
+					return false
+				}
 				switch t.kind {
 				case kUnion:
 					return depth == 0 // unions only directly as struct fields
@@ -252,6 +278,10 @@ func (g *gen) typeExpr(f *file, depth int, key bool) (expr string) {
 			t := kernel.Pick(r, cands)
 			if t.hasUnion || t.kind == kUnion {
 				g.sawUnion = true
+			}
+			g.w = t.weight
+			if g.w < 1 {
+				g.w = 1
 			}
 			if t.kind == kGeneric {
 				ids := g.visible(f, func(t *named) bool { return t.kind == kID })
@@ -268,12 +298,23 @@ func (g *gen) typeExpr(f *file, depth int, key bool) (expr string) {
 			}
 			f.useStd("time")
 			return "time.Time"
-		case w < 15 && depth < 2:
-			return "[]" + g.typeExprNoUnion(f, depth+1)
+		case w < 15 && depth < 2 && budget >= 5:
+			e := g.typeExprB(f, max(depth+1, 1), false, budget/5)
+			g.w *= 5
+			return "[]" + e
 		case w < 16 && depth < 2:
-			return fmt.Sprintf("[%d]%s", r.Range(1, 4), g.typeExprNoUnion(f, depth+1))
-		case w < 18 && depth < 2:
-			return "map[" + g.typeExpr(f, depth+1, true) + "]" + g.typeExprNoUnion(f, depth+1)
+			n := r.Range(1, 4)
+			if budget < n {
+				continue
+			}
+			e := g.typeExprB(f, max(depth+1, 1), false, budget/n)
+			g.w *= n
+			return fmt.Sprintf("[%d]%s", n, e)
+		case w < 18 && depth < 2 && budget >= 90:
+			k := g.typeExprB(f, depth+1, true, budget)
+			e := g.typeExprB(f, max(depth+1, 1), false, budget/45-1)
+			g.w = 45 * (g.w + 1)
+			return "map[" + k + "]" + e
 		case w < 19 && g.prof.Pointers && depth == 0:
 			return "*" + g.basic()
 		default:
@@ -402,14 +443,19 @@ func (g *gen) declNamedContainer(f *file) {
 	name := g.fresh("L")
 	switch r.Intn(3) {
 	case 0:
-		fmt.Fprintf(&f.body, "type %s []%s\n\n", name, g.typeExprNoUnion(f, 1))
-		f.pkg.types = append(f.pkg.types, &named{pkg: f.pkg, name: name, kind: kNamedSlice})
+		e := g.typeExprB(f, 1, false, g.budget()/5)
+		fmt.Fprintf(&f.body, "type %s []%s\n\n", name, e)
+		f.pkg.types = append(f.pkg.types, &named{pkg: f.pkg, name: name, kind: kNamedSlice, weight: 5 * g.w})
 	case 1:
-		fmt.Fprintf(&f.body, "type %s [%d]%s\n\n", name, r.Range(1, 5), g.typeExprNoUnion(f, 1))
-		f.pkg.types = append(f.pkg.types, &named{pkg: f.pkg, name: name, kind: kNamedArray})
+		n := r.Range(1, 5)
+		e := g.typeExprB(f, 1, false, g.budget()/n)
+		fmt.Fprintf(&f.body, "type %s [%d]%s\n\n", name, n, e)
+		f.pkg.types = append(f.pkg.types, &named{pkg: f.pkg, name: name, kind: kNamedArray, weight: n * g.w})
 	default:
-		fmt.Fprintf(&f.body, "type %s map[%s]%s\n\n", name, g.typeExpr(f, 1, true), g.typeExprNoUnion(f, 1))
-		f.pkg.types = append(f.pkg.types, &named{pkg: f.pkg, name: name, kind: kNamedMap})
+		k := g.typeExpr(f, 1, true)
+		e := g.typeExprB(f, 1, false, g.budget()/45-1)
+		fmt.Fprintf(&f.body, "type %s map[%s]%s\n\n", name, k, e)
+		f.pkg.types = append(f.pkg.types, &named{pkg: f.pkg, name: name, kind: kNamedMap, weight: 45 * (g.w + 1)})
 	}
 }
 
@@ -429,11 +475,17 @@ func (g *gen) declStruct(f *file, allowUnion bool) *named {
 	}
 	fmt.Fprintf(&f.body, "type %s struct {\n", name)
 	// embedded struct
+	total := 1
 	if r.Chance(1, 8) {
-		cands := g.visible(f, func(t *named) bool { return t.kind == kStruct && !t.hasUnion && t.pkg == f.pkg && exported(t.name) })
+		cands := g.visible(f, func(t *named) bool {
+			return t.kind == kStruct && !t.hasUnion && !t.unionMember && t.pkg == f.pkg && exported(t.name) && t.weight <= g.budget()/2
+		})
 		if len(cands) > 0 {
 			e := kernel.Pick(r, cands)
 			fmt.Fprintf(&f.body, "\t%s\n", e.name)
+			e.embedRelated = true
+			t.embedRelated = true
+			total += e.weight
 		}
 	}
 	for i := 0; i < nf; i++ {
@@ -444,12 +496,17 @@ func (g *gen) declStruct(f *file, allowUnion bool) *named {
 		depth := 0
 		var ty string
 		g.sawUnion = false
-		if allowUnion {
-			ty = g.typeExpr(f, depth, false)
-		} else {
-			ty = g.typeExprNoUnion(f, 0)
-			// typeExprNoUnion bumps depth to 1, which also forbids unions
+		remaining := g.budget() - total
+		if remaining < 1 {
+			remaining = 1
 		}
+		if allowUnion {
+			ty = g.typeExprB(f, depth, false, remaining)
+		} else {
+			// depth 1 also forbids unions
+			ty = g.typeExprB(f, 1, false, remaining)
+		}
+		total += g.w
 		if g.sawUnion {
 			t.hasUnion = true
 		}
@@ -483,6 +540,7 @@ func (g *gen) declStruct(f *file, allowUnion bool) *named {
 		fmt.Fprintf(&f.body, "\t%s %s%s%s\n", fname, ty, tag, comment)
 	}
 	f.body.WriteString("}\n\n")
+	t.weight = total
 	f.pkg.types = append(f.pkg.types, t)
 	return t
 }
@@ -497,7 +555,9 @@ func (g *gen) declUnion(f *file) {
 	var members []string
 	for i := 0; i < nm; i++ {
 		// members: new structs (without unions inside), sometimes an existing struct
-		cands := g.visible(f, func(t *named) bool { return t.kind == kStruct && t.pkg == f.pkg && !t.hasUnion && exported(t.name) })
+		cands := g.visible(f, func(t *named) bool {
+			return t.kind == kStruct && t.pkg == f.pkg && !t.hasUnion && !t.embedRelated && exported(t.name) && t.weight <= g.budget()/8
+		})
 		if len(cands) > 0 && r.Chance(1, 3) {
 			m := kernel.Pick(r, cands)
 			dup := false
@@ -510,7 +570,7 @@ func (g *gen) declUnion(f *file) {
 			}
 		}
 		st := g.declStruct(f, false)
-		if !exported(st.name) || st.hasUnion {
+		if !exported(st.name) || st.hasUnion || st.embedRelated || st.weight > g.budget()/8 {
 			// keep it out of the union: unexported members are legal Go but
 			// outside the profile
 			continue
@@ -520,7 +580,7 @@ func (g *gen) declUnion(f *file) {
 	if len(members) == 0 {
 		st := g.fresh("S")
 		fmt.Fprintf(&f.body, "type %s struct {\n\tV int\n}\n\n", st)
-		f.pkg.types = append(f.pkg.types, &named{pkg: f.pkg, name: st, kind: kStruct})
+		f.pkg.types = append(f.pkg.types, &named{pkg: f.pkg, name: st, kind: kStruct, weight: 2})
 		members = append(members, st)
 	}
 	for _, m := range members {
@@ -528,19 +588,31 @@ func (g *gen) declUnion(f *file) {
 	}
 	f.body.WriteString("\n")
 	sort.Strings(members)
+	uw := 0
+	for _, m := range members {
+		for _, lt := range f.pkg.types {
+			if lt.name == m {
+				lt.unionMember = true
+				uw += lt.weight
+			}
+		}
+	}
+	if uw < 1 {
+		uw = 1
+	}
 	info.Members = members
 	g.prog.Unions = append(g.prog.Unions, info)
-	f.pkg.types = append(f.pkg.types, &named{pkg: f.pkg, name: name, kind: kUnion, hasUnion: true})
+	f.pkg.types = append(f.pkg.types, &named{pkg: f.pkg, name: name, kind: kUnion, hasUnion: true, weight: uw})
 	// named containers of the union
 	if r.Chance(1, 2) {
 		ln := g.fresh("UL")
 		fmt.Fprintf(&f.body, "type %s []%s\n\n", ln, name)
-		f.pkg.types = append(f.pkg.types, &named{pkg: f.pkg, name: ln, kind: kNamedUnionSlice, hasUnion: true})
+		f.pkg.types = append(f.pkg.types, &named{pkg: f.pkg, name: ln, kind: kNamedUnionSlice, hasUnion: true, weight: 5 * uw})
 	}
 	if r.Chance(1, 3) {
 		mn := g.fresh("UM")
 		fmt.Fprintf(&f.body, "type %s map[%s]%s\n\n", mn, kernel.Pick(r, []string{"string", "int"}), name)
-		f.pkg.types = append(f.pkg.types, &named{pkg: f.pkg, name: mn, kind: kNamedUnionMap, hasUnion: true})
+		f.pkg.types = append(f.pkg.types, &named{pkg: f.pkg, name: mn, kind: kNamedUnionMap, hasUnion: true, weight: 45 * (uw + 1)})
 	}
 }
 
